@@ -9,7 +9,16 @@ from .gen import MODES, Sem, ftok
 OBL = json.load(open(os.path.join(run.LEAN, "obligations.json")))
 
 
+# properties whose thorough pools cost well under a minute: the quick tier already uses them (measured: 14-30 s each),
+# and the thorough tier triples the random streams
+CHEAP = {"C02", "C03", "C04", "C05", "C06", "C07", "C08"}
+
+
 def tiers(ctx, q, t):
+    if ctx.pid in CHEAP:
+        if ctx.tier == "thorough" and isinstance(t, int) and not isinstance(t, bool) and t >= 1000:
+            return 3 * t
+        return t
     return t if ctx.tier == "thorough" else q
 
 
@@ -173,6 +182,7 @@ def c05(ctx):
     ctx.stream("exh-small-pairs", lines, exhaustive=True, nontrivial=lambda t: True)
     ctx.stream("real", gen.cmp_lines_real(rng, tiers(ctx, 20000, 300000)), nontrivial=lambda t: True)
     ctx.stream("word-prefix", gen.word_prefix_cmp_lines(rng, tiers(ctx, 4000, 60000)), nontrivial=lambda t: True)
+    ctx.stream("produced-values", gen.progcmp_lines(rng, tiers(ctx, 6000, 60000)), nontrivial=lambda t: True)
     return done(ctx)
 
 
@@ -239,6 +249,7 @@ def c11(ctx):
              for a in gen.all_values(Sem(E, P)) for b in gen.all_values(Sem(E, P))]
     ctx.stream("exh-small", lines, exhaustive=True, chunk_timeout=600)
     ctx.stream("real", gen.rem_real(rng, tiers(ctx, 5000, 100000)), chunk_timeout=600, per_line_timeout=10)
+    ctx.stream("minimum-exponent-multiword", gen.rem_min_exponent_lines(rng, tiers(ctx, 6000, 60000)), chunk_timeout=600, per_line_timeout=10)
     return done(ctx)
 
 
@@ -329,8 +340,18 @@ def c13(ctx):
     small = tiers(ctx, gen.SMALL_QUICK, gen.SMALL_THOROUGH)
     l1 = ["disp %s %s" % (Sem(E, P), a) for (E, P) in small for a in gen.all_values(Sem(E, P)) + ["X1:0:0"]]
     l2 = gen.disp_lines_real(rng, tiers(ctx, 3000, 40000))
-    for name, lines, exh in (("exh-small", l1, True), ("real-wide", l2, False)):
-        impl, _ = ctx.stream(name, lines, exhaustive=exh, nontrivial=lambda t: t in ("frac", "int"), chunk_timeout=900)
+    # integers of thousands of words (formats with 20 exponent bits): the digit budgets of the recursive extraction are
+    # only tight for word counts no other stream reaches; one value per word count, spread over 5800..8190 words
+    l3 = []
+    for _ in range(tiers(ctx, 32, 320)):
+        E, P = rng.choice([(20, 64), (20, 24), (20, 70)])
+        s = Sem(E, P, "E")
+        words = rng.randrange(5800, 8191)
+        e = min(s.emax, 64 * words - rng.randrange(1, 64))
+        l3.append("disp %s %s" % (s, ftok("N", rng.randrange(2), e, rng.choice([2 ** (P - 1), 2 ** P - 1, gen.rand_mant(rng, P)]))))
+    for name, lines, exh in (("exh-small", l1, True), ("real-wide", l2, False), ("huge-integers", l3, False)):
+        impl, _ = ctx.stream(name, lines, exhaustive=exh, nontrivial=lambda t: t in ("frac", "int"), chunk_timeout=900, per_line_timeout=60.0,
+                             chunk_lines=2 if name == "huge-integers" else 500)
         for ln, im in zip(lines, impl):
             if im in ("PANIC", "ABORT", "HANG"):
                 continue
